@@ -66,10 +66,12 @@ def _as_num(v):
 
 
 class Point:
-  def __init__(self, leaf, override=None):
-    """leaf(t) -> value or None for terms the rule knows; override: {term: value} takes precedence."""
+  def __init__(self, leaf, override=None, atom=None):
+    """leaf(t) -> value or None for terms the rule knows; override: {term: value} takes precedence; atom(t): terms
+    `strip` leaves untouched (quantities whose own definition is not on the value spine; default: where leaf answers)."""
     self.leaf = leaf
     self.override = dict(override or {})
+    self.atom = atom if atom is not None else (lambda t: leaf(t) is not None)
     self.memo = {}
 
   # ------------------------------------------------------------------ values
@@ -239,6 +241,12 @@ class Point:
     if short in ('any', 'all') and args:
       x = self.ival(args[0])
       return x if _bool(x) else None
+    if short in ('max', 'min', 'amax', 'amin', 'mean') and args:
+      x = self.ival(args[0])
+      return x if (x == 'pos' or _num(x)) else None          # a reduction of a uniformly classified array
+    if short == 'sum' and args:
+      x = self.ival(args[0])
+      return x if (x == 'pos' or _is_zero(x)) else None
     if short == 'norm' and name.endswith('linalg.norm') and args:
       x = self.ival(args[0])
       if _is_zero(x):
@@ -277,7 +285,7 @@ class Point:
       if x in memo:
         return memo[x]
       r = None
-      if self.leaf(x) is not None:
+      if self.atom(x):
         r = x                        # a quantity the rule knows: not rewritten (its own definition is not on the spine)
       elif is_ext_call(x, 'jax.numpy.where', 'jax.lax.select', 'numpy.where') and len(x.args[1]) == 3:
         c, a, b = x.args[1]
